@@ -15,7 +15,7 @@ RULE = (
     "return code, payload lengths boundary-biased up to 70000), an optional suffix (random bytes, a second message, "
     "a truncated header) and an optional corruption of one header field of one message (length incl. 0..7 and "
     "overshoot, protocol version, message type, return code), the block of messages optionally repeated 30/300/1100/4094 times within the 65507 bytes of one UDP datagram; non-trivial = payload >= 65528 bytes, or non-empty "
-    "suffix, or >= 2 messages, or a corrupted field; additionally datagrams of 1..6 SD-endpoint messages (well-formed, undecodable SD payload, foreign service, wrong message type) delivered to a discovery endpoint; distinct = distinct case JSON"
+    "suffix, or >= 2 messages, or a corrupted field; in a third of the cases the receiving endpoint has just sent the same bytes itself; additionally datagrams of 1..6 SD-endpoint messages (well-formed, undecodable SD payload, foreign service, wrong message type) delivered to a discovery endpoint; distinct = distinct case JSON"
 )
 ASSUMPTIONS = [
     "harness/wire.py (independent codec written from the layout tables) is the reference for layout and for accept/reject",
@@ -89,7 +89,7 @@ def _case(draw):
         corrupt = {"idx": idx, "field": field, "value": val}
     # "any number of messages per datagram": the whole block repeated, up to what one UDP datagram can carry (65507 bytes)
     rep = draw(st.sampled_from([1] * 12 + [30, 300, 1100, 4094]))
-    return {"msgs": msgs, "suffix": suffix, "corrupt": corrupt, "rep": rep}
+    return {"msgs": msgs, "suffix": suffix, "corrupt": corrupt, "rep": rep, "echo": draw(st.sampled_from([False, False, True]))}
 
 
 _sdmsg = st.one_of(st.just({"kind": "ok"}), st.just({"kind": "ok"}), st.just({"kind": "badsd"}), st.just({"kind": "foreign"}), st.just({"kind": "request"}),
@@ -136,6 +136,11 @@ def _fields(x):
 def _same(libmsg, wf):
     f = _fields(libmsg)
     return all(f[k] == wf[k] for k in f)
+
+
+class _Sink:
+    def sendto(self, data, addr=None):
+        pass
 
 
 class _Rec(sd.SOMEIPDatagramProtocol):
@@ -298,6 +303,13 @@ def run_case(case):
     for mc in (False, True):
         p = _Rec()
         a = ("10.0.0.2", 30490)
+        if case.get("echo"):
+            # the endpoint itself has just sent the very same bytes (to its default destination and to the sender): what
+            # another node sends is delivered all the same
+            p.transport = _Sink()
+            p.default_addr = ("224.244.224.245", 30490)
+            p.send(data)
+            p.send(data, remote=a)
         p.datagram_received(data, a, mc)
         require(len(p.got) == len(expect), "C01.delivery-count",
                 lambda: f"{len(p.got)} messages delivered, expected {len(expect)}; datagram len={len(data)}")
